@@ -7,6 +7,15 @@ use crate::verif_anyboard as ab;
 use crate::verif_refspec as rs;
 use crate::verif_shim as vk;
 
+fn any_w(cell_code: u8) -> Move {
+    let k = vk::any_u8(); vk::assume(1 <= k && k < 10);
+    let s = ab::any_sq(); let d = ab::any_sq();
+    let m = unsafe { Move::new_unchecked(rs::mk_kind(k), ab::cell(cell_code), ab::coord(s), ab::coord(d)) };
+    #[cfg(not(kani))]
+    vk::note(&format!("witness move kind={:?} cell={:?} src={} dst={}", m.kind(), m.src_cell(), m.src(), m.dst()));
+    m
+}
+
 // C07 (b): the legality filter forwards a move to the inner sink exactly when the checker says it
 // is legal, and hands back the sink's answer.  The checker's decision is imported by contract
 // (C01/legal/is-legal-prefilter/*) as a free boolean: an otherwise irrelevant bit of the move.
@@ -38,13 +47,13 @@ harness! {
 // C07: the public query on small boards: true exactly when the legal move list is non-empty (the
 // list is exact on these boards: C01/legal-gen/end-to-end-small)
 harness! {
-    #[kani::unwind(38)]
+    #[kani::unwind(30)]
     #[kani::stub(crate::attack::rook, crate::verif_anyboard::stub_rook)]
     #[kani::stub(crate::attack::bishop, crate::verif_anyboard::stub_bishop)]
     fn c07_has_legal_moves_small_boards() {
         let b = ab::any_board();
         ab::assume_valid(&b);
-        vk::assume(b.white.len() <= 2 && b.black.len() <= 2);
+        vk::assume(b.all.len() <= 3);
         let list = legal::gen_all(&b);
         assert!(has_legal_moves(&b) == !list.is_empty());
         assert!(b.has_legal_moves() == has_legal_moves(&b));
@@ -107,3 +116,39 @@ fn n19_capacity_and_known_high_mobility_positions() {
     }
     eprintln!("EVALUATIONS: {}", n);
 }
+
+// C01 item 4, bounded stand-in for the macro-generated public glue (side dispatch,
+// UnsafeMoveList, ArrayVec::retain with the legality checker): one public legal generator per
+// harness, every valid position with the two kings and at most one more man.
+macro_rules! e2e_small {
+    ($name:ident, $gen:ident, $class:expr) => {
+        harness! {
+            #[kani::unwind(30)]
+            #[kani::stub(crate::attack::rook, crate::verif_anyboard::stub_rook)]
+            #[kani::stub(crate::attack::bishop, crate::verif_anyboard::stub_bishop)]
+            fn $name() {
+                let b = ab::any_board();
+                ab::assume_valid(&b);
+                vk::assume(b.all.len() <= 3);
+                let c = vk::any_u8(); vk::assume(1 <= c && c <= 12);
+                let w = any_w(c);
+                let rw = rs::rmove(w);
+                let list = legal::$gen(&b);
+                let mut hits = 0u32;
+                for m in list.iter() { if *m == w { hits += 1; } }
+                let occupied = rs::ci(b.r.cells[rw.dst as usize]) != 0 || rw.kind == rs::K_EP;
+                let promo = rs::is_promo(rw.kind);
+                let class: fn(bool, bool) -> bool = $class;
+                let want = rs::ref_legal(&b.r, rw) && class(occupied, promo);
+                assert!(hits == if want { 1 } else { 0 });
+                cover!(want);
+                cover!(!want);
+            }
+        }
+    };
+}
+e2e_small!(e2e_small_gen_all, gen_all, |_o, _p| true);
+e2e_small!(e2e_small_gen_capture, gen_capture, |o, _p| o);
+e2e_small!(e2e_small_gen_simple, gen_simple, |o, _p| !o);
+e2e_small!(e2e_small_gen_simple_no_promote, gen_simple_no_promote, |o, p| !o && !p);
+e2e_small!(e2e_small_gen_simple_promote, gen_simple_promote, |o, p| !o && p);
